@@ -1,6 +1,6 @@
 (* C09 — Crash consistency of imports, transfers, checks and deletions (item model: Model/Item.v). *)
 From Coq Require Import List NArith Bool Arith.
-From Alp Require Import Base.Str Base.Types Model.Pull Model.Item Proofs.ItemProofs.
+From Alp Require Import Base.Str Base.Types Model.Pull Model.Item Proofs.ItemProofs Model.Import Proofs.ImportCrashProofs.
 Import ListNotations.
 
 (* A kill after any number k of database statements / file-system calls of any task (verification of either copy, deletion,
@@ -32,6 +32,13 @@ Theorem C09_check_recovers : forall i e b j,
   pre_check i = true -> dst_usable e = true -> In j (all_crash_states e b i) -> is_m (dst_state (rounds 1 e j)) = false.
 Proof. exact check_recovers. Qed.
 Print Assumptions C09_check_recovers.
+
+(* Imports (the statement-level model of _import_file shared with C04: every statement is committed on its own).  For every index
+   state of the path (acquisition / file / copy record in any state) and every k: a kill after k statements of the import task,
+   followed by a fresh task for the still-pending request, ends with exactly the records the uninterrupted import leaves *)
+Theorem C09_import_recovers : forall d k, full (fst (steps k d P0)) = full d.
+Proof. exact import_crash_recovers. Qed.
+Print Assumptions C09_import_recovers.
 
 Example C09_example : pre_transfer ex_item = true /\ good_env ex_env = true /\ length (all_crash_states ex_env (BFail true LPartial) ex_item) = 8%nat
   /\ dst_row (rounds 1 ex_env ex_item) = Some (HY, WY) /\ req (rounds 1 ex_env ex_item) = Completed.
